@@ -68,7 +68,7 @@ def runtime_contract(qualname, args):
         call_args = call_args[1:]  # classmethod: the contract's `cls` placeholder is not passed
     try:
         res = fn(*call_args)
-        if K.returns in ("gen", "Seq", "TupleList") and not isinstance(res, (list, tuple)):
+        if (K.returns in ("gen", "Seq", "TupleList") or str(K.returns).startswith("Seq[")) and not isinstance(res, (list, tuple)):
             res = list(res)
         if K.returns == "CellSetGen":
             res = set(res)
